@@ -381,6 +381,8 @@ def main():
     extra = []
     if tier == 'thorough':
         extra = registry.thorough_extra(prop, seed, results)
+        if all(r.status == 'ok' for r in results):
+            extra += stability_runs(results, seed)
     if pdef.get('standin_always') and all(r.status == 'ok' for r in results):
         # functions of this property that are out of the verifier's reach: bounded stand-in on every run (labelled, never counted as proved)
         try:
@@ -401,6 +403,30 @@ def main():
         except Exception as ex:
             extra.append(dict(kind='bounded stand-in', error=repr(ex), undecided='bounded stand-in could not run: %r' % (ex,)))
     return verdict(prop, tier, seed, pdef, results, extra, time.time() - t0)
+
+
+def stability_runs(results, seed):
+    """thorough tier: every unit is verified twice more with different solver seeds (proofs that depend on solver luck are the ones that later fail
+    for no semantic reason). Informational: the obligations are discharged by the main run; a group that fails under another seed is listed as unstable."""
+    out = []
+    seeds = [str(11 + 2 * seed), str(4242 + seed)]
+    with cf.ThreadPoolExecutor(max_workers=4) as pool:
+        futs = []
+        for ur in results:
+            externs = ensure_externs(ur.unit.get('externs', []))
+            vo = ur.unit.get('verify_only')
+            for sd in seeds:
+                extra = ['--smt-option', 'smt.random_seed=' + sd] + (['--verify-root', '--verify-function', vo] if vo else [])
+                futs.append((ur.name, sd, pool.submit(run_verus, ur.path, externs, tuple(extra))))
+        for name, sd, fut in futs:
+            cmd, r, js, wall = fut.result()
+            groups = fn_breakdown(js) if js else {}
+            failed = sorted(g for g, v in groups.items() if not v.get('success'))
+            known_failing = [g for g in failed if 'finding_c0' in g]  # the recorded-finding obligations fail by design
+            failed = [g for g in failed if g not in known_failing]
+            out.append(dict(kind='proof stability (same file, other solver seed)', unit=name, smt_random_seed=int(sd), groups=len(groups),
+                            unstable_groups=failed, wall_s=round(wall, 1)))
+    return out
 
 
 def verdict(prop, tier, seed, pdef, results, extra, wall):
